@@ -28,21 +28,21 @@ func TestVerifDriver(t *testing.T) {
 		return func(b bool) string { return "custom:" + name(v)(b) }
 	}
 	var cases []VCase
-	add := func(ep, variant string, opts []string, fb string, res func(bool) string, send func(method, oc string) error) {
+	add := func(ep, side, variant string, opts []string, fb string, res func(bool) string, send func(method, oc string) error) {
 		mres := name(ep + "." + variant)
-		cases = append(cases, VCase{Ep: ep, Variant: variant, Options: opts, Wraps: true, Errsig: true, Fb: fb, Res: res,
+		cases = append(cases, VCase{Ep: ep, Side: side, Variant: variant, Options: opts, Wraps: true, Errsig: true, Fb: fb, Res: res,
 			Send: func(blocked bool, oc string) bool { return vIsBlock(send(mres(blocked), oc)) }})
 	}
-	variants := func(ep, exName, fbName string, ex, fb Option, send func(opts []Option) func(method, oc string) error) {
+	variants := func(ep, side, exName, fbName string, ex, fb Option, send func(opts []Option) func(method, oc string) error) {
 		v := func(s string) string { return ep + "." + s }
-		add(ep, "default", nil, "default", name(v("default")), send(nil))
-		add(ep, "extractor", []string{exName}, "default", custom(v("extractor")), send([]Option{ex}))
-		add(ep, "fallback", []string{fbName}, "custom", name(v("fallback")), send([]Option{fb}))
-		add(ep, "extractor+fallback", []string{exName, fbName}, "custom", custom(v("extractor+fallback")), send([]Option{ex, fb}))
+		add(ep, side, "default", nil, "default", name(v("default")), send(nil))
+		add(ep, side, "extractor", []string{exName}, "default", custom(v("extractor")), send([]Option{ex}))
+		add(ep, side, "fallback", []string{fbName}, "custom", name(v("fallback")), send([]Option{fb}))
+		add(ep, side, "extractor+fallback", []string{exName, fbName}, "custom", custom(v("extractor+fallback")), send([]Option{ex, fb}))
 	}
 
 	// unary client: the "handler" is the invoker
-	variants("NewUnaryClientInterceptor", "WithUnaryClientResourceExtractor", "WithUnaryClientBlockFallback",
+	variants("NewUnaryClientInterceptor", "client", "WithUnaryClientResourceExtractor", "WithUnaryClientBlockFallback",
 		WithUnaryClientResourceExtractor(func(_ context.Context, m string, _ interface{}, _ *grpc.ClientConn) string { return "custom:" + m }),
 		WithUnaryClientBlockFallback(func(context.Context, string, interface{}, *grpc.ClientConn, *base.BlockError) error {
 			VFallback()
@@ -58,7 +58,7 @@ func TestVerifDriver(t *testing.T) {
 			}
 		})
 	// stream client: the "handler" is the streamer
-	variants("NewStreamClientInterceptor", "WithStreamClientResourceExtractor", "WithStreamClientBlockFallback",
+	variants("NewStreamClientInterceptor", "client", "WithStreamClientResourceExtractor", "WithStreamClientBlockFallback",
 		WithStreamClientResourceExtractor(func(_ context.Context, _ *grpc.StreamDesc, _ *grpc.ClientConn, m string) string { return "custom:" + m }),
 		WithStreamClientBlockFallback(func(context.Context, *grpc.StreamDesc, *grpc.ClientConn, string, *base.BlockError) (grpc.ClientStream, error) {
 			VFallback()
@@ -75,7 +75,7 @@ func TestVerifDriver(t *testing.T) {
 			}
 		})
 	// unary server
-	variants("NewUnaryServerInterceptor", "WithUnaryServerResourceExtractor", "WithUnaryServerBlockFallback",
+	variants("NewUnaryServerInterceptor", "server", "WithUnaryServerResourceExtractor", "WithUnaryServerBlockFallback",
 		WithUnaryServerResourceExtractor(func(_ context.Context, _ interface{}, info *grpc.UnaryServerInfo) string {
 			return "custom:" + info.FullMethod
 		}),
@@ -92,7 +92,7 @@ func TestVerifDriver(t *testing.T) {
 			}
 		})
 	// stream server
-	variants("NewStreamServerInterceptor", "WithStreamServerResourceExtractor", "WithStreamServerBlockFallback",
+	variants("NewStreamServerInterceptor", "server", "WithStreamServerResourceExtractor", "WithStreamServerBlockFallback",
 		WithStreamServerResourceExtractor(func(_ interface{}, _ grpc.ServerStream, info *grpc.StreamServerInfo) string {
 			return "custom:" + info.FullMethod
 		}),
